@@ -559,4 +559,185 @@ theorem brSpec_congr (o o' : Opts) (ms ms' : List Bits)
     (fun k => Marks_congr brDim (·.brStart) (·.2.1) (fun _ => rfl) o'.brStart ms ms' hm k)
     (fun k => Marks_congr brDim (·.brStop) (·.2.2) (fun _ => rfl) o'.brStop ms ms' hm k) n]
 
+/-! ### line splitting; the piece after a final line feed -/
+
+theorem consHead_ne_nil (b : Nat) (l : List (List Nat)) : consHead b l ≠ [] := by
+  cases l <;> simp [consHead]
+
+theorem splitLF_ne_nil (xs : List Nat) : splitLF xs ≠ [] := by
+  cases xs with
+  | nil => simp [splitLF]
+  | cons b bs =>
+    unfold splitLF
+    split
+    · simp
+    · exact consHead_ne_nil _ _
+
+theorem consHead_append (b : Nat) (l t : List (List Nat)) (h : l ≠ []) :
+    consHead b (l ++ t) = consHead b l ++ t := by
+  cases l with
+  | nil => exact absurd rfl h
+  | cons p ps => rfl
+
+/-- `(s + "\n").split('\n')` is `s.split('\n')` followed by one empty piece -/
+theorem splitLF_snoc_lf (xs : List Nat) : splitLF (xs ++ [10]) = splitLF xs ++ [[]] := by
+  induction xs with
+  | nil => simp [splitLF]
+  | cons b bs ih =>
+    by_cases hb : b = 10
+    · subst hb
+      simp [splitLF, ih]
+    · simp only [List.cons_append, splitLF, hb, if_false, ih]
+      exact consHead_append b _ _ (splitLF_ne_nil bs)
+
+theorem stripCR_nil : stripCR [] = [] := rfl
+
+theorem stripFinalLF_snoc_lf (body : List Nat) : stripFinalLF (body ++ [10]) = body := by
+  simp [stripFinalLF]
+
+theorem stripFinalLF_of_not_lf (src : List Nat) (h : src.getLast? ≠ some 10) :
+    stripFinalLF src = src := by
+  simp [stripFinalLF, h]
+
+/-- one final newline adds no piece -/
+theorem splitSrc_snoc_lf (body : List Nat) : splitSrc (body ++ [10]) = splitLF body := by
+  unfold splitSrc; rw [stripFinalLF_snoc_lf]
+
+theorem splitSrc_of_not_lf (src : List Nat) (h : src.getLast? ≠ some 10) :
+    splitSrc src = splitLF src := by
+  unfold splitSrc; rw [stripFinalLF_of_not_lf src h]
+
+theorem splitSrc_nil : splitSrc [] = [[]] := rfl
+
+theorem sourceBits_length (rx : Rx) (src : List Nat) :
+    (sourceBits rx src).length = (splitSrc src).length := by
+  simp [sourceBits]
+
+theorem sourceBits_pos (rx : Rx) (src : List Nat) : 1 ≤ (sourceBits rx src).length := by
+  rw [sourceBits_length]
+  unfold splitSrc
+  cases h : splitLF (stripFinalLF src) with
+  | nil => exact absurd h (splitLF_ne_nil _)
+  | cons p ps => simp
+
+theorem sourceBits_snoc_lf (rx : Rx) (body : List Nat) (h : body.getLast? ≠ some 10) :
+    sourceBits rx (body ++ [10]) = sourceBits rx body := by
+  unfold sourceBits
+  rw [splitSrc_snoc_lf, splitSrc_of_not_lf body h]
+
+theorem realLines_snoc_lf (body : List Nat) : realLines (body ++ [10]) = (splitLF body).length := by
+  simp [realLines, splitLF_snoc_lf]
+
+theorem realLines_no_final_lf (src : List Nat) (h1 : src ≠ []) (h2 : src.getLast? ≠ some 10) :
+    realLines src = (splitLF src).length := by
+  simp [realLines, h1, h2]
+
+theorem eq_snoc_of_getLast? {src : List Nat} {x : Nat} (h : src.getLast? = some x) :
+    src = src.dropLast ++ [x] := by
+  cases src with
+  | nil => cases h
+  | cons a as =>
+    have hne : a :: as ≠ [] := by simp
+    have := List.dropLast_concat_getLast hne
+    rw [List.getLast?_eq_some_getLast hne] at h
+    cases h
+    exact this.symm
+
+/-- the pass enumerates exactly the lines of every non-empty text -/
+theorem splitSrc_length (src : List Nat) (h : src ≠ []) : (splitSrc src).length = realLines src := by
+  by_cases hl : src.getLast? = some 10
+  · have e := eq_snoc_of_getLast? hl
+    rw [e, splitSrc_snoc_lf, realLines_snoc_lf]
+  · rw [splitSrc_of_not_lf src hl, realLines_no_final_lf src h hl]
+
+theorem realLines_nil : realLines [] = 0 := by decide
+
+/-- the results for the lines before the last piece do not depend on the last piece -/
+theorem kindOf_append_le (o : Opts) (ms : List Bits) (e : Bits) (n : Nat) (hn : n ≤ ms.length) :
+    kindOf o (ms ++ [e]) n = kindOf o ms n := by
+  unfold kindOf
+  have h1 : lineAt (ms ++ [e]) n = lineAt ms n := by
+    cases n with
+    | zero => rfl
+    | succ k => rw [lineAt_succ, lineAt_succ, List.getElem?_append_left (by omega)]
+  rw [h1, List.take_append_of_le_length hn]
+
+/-- the result for an extra last piece `e`: its own marker, or the region state at the end of
+the text carried over it -/
+theorem kindOf_append_last (o : Opts) (ms : List Bits) (e : Bits) :
+    kindOf o (ms ++ [e]) (ms.length + 1)
+      = classify o (stepFlags o (flagsAfter o Flags.init ms) e) e := by
+  unfold kindOf
+  rw [lineAt_succ, List.getElem?_append_right (Nat.le_refl _)]
+  have ht : (ms ++ [e]).take (ms.length + 1) = ms ++ [e] := by
+    rw [List.take_of_length_le (by simp)]
+  simp only [Nat.sub_self, List.getElem?_cons_zero, ht]
+  unfold flagsAfter
+  rw [List.foldl_append]
+  rfl
+
+theorem flagsAfter_all_ignore (o : Opts) (ms : List Bits) :
+    (flagsAfter o Flags.init ms).ignore = true ↔ inLineRegion o ms ms.length := by
+  have := flags_ignore_iff o ms ms.length (Nat.le_refl _)
+  rwa [List.take_length] at this
+
+theorem flagsAfter_all_ignoreBr (o : Opts) (ms : List Bits) :
+    (flagsAfter o Flags.init ms).ignoreBr = true ↔ inBrRegion o ms ms.length := by
+  have := flags_ignoreBr_iff o ms ms.length (Nat.le_refl _)
+  rwa [List.take_length] at this
+
+theorem removesLine_append_le (o : Opts) (ms : List Bits) (e : Bits) (n : Nat)
+    (hlen : ms.length + 1 ≤ U32MAX) (hn : n ≤ ms.length) :
+    removesLine (create o true (ms ++ [e])) n ↔ removesLine (create o true ms) n := by
+  rw [removesLine_create o _ (by simpa using hlen), removesLine_create o ms (by omega),
+    kindOf_append_le o ms e n hn]
+
+theorem removesBranch_append_le (o : Opts) (ms : List Bits) (e : Bits) (n : Nat)
+    (hlen : ms.length + 1 ≤ U32MAX) (hn : n ≤ ms.length) :
+    removesBranch (create o true (ms ++ [e])) n ↔ removesBranch (create o true ms) n := by
+  rw [removesBranch_create o _ (by simpa using hlen), removesBranch_create o ms (by omega),
+    kindOf_append_le o ms e n hn]
+
+theorem removesLine_append_last (o : Opts) (ms : List Bits) (e : Bits)
+    (hlen : ms.length + 1 ≤ U32MAX) :
+    removesLine (create o true (ms ++ [e])) (ms.length + 1) ↔
+      hit o.line e.line = true ∨ hit o.start e.start = true ∨
+        (inLineRegion o ms ms.length ∧ hit o.stop e.stop = false) := by
+  rw [removesLine_create o _ (by simpa using hlen), kindOf_append_last, classify_line_iff,
+    stepFlags_ignore, ← flagsAfter_all_ignore]
+  cases hit o.start e.start <;> cases hit o.stop e.stop <;>
+    cases (flagsAfter o Flags.init ms).ignore <;> simp
+
+theorem removesBranch_append_last (o : Opts) (ms : List Bits) (e : Bits)
+    (hlen : ms.length + 1 ≤ U32MAX) :
+    removesBranch (create o true (ms ++ [e])) (ms.length + 1) ↔
+      hit o.brLine e.brLine = true ∨ hit o.brStart e.brStart = true ∨
+        (inBrRegion o ms ms.length ∧ hit o.brStop e.brStop = false) := by
+  rw [removesBranch_create o _ (by simpa using hlen), kindOf_append_last, classify_branch_iff,
+    stepFlags_ignoreBr, ← flagsAfter_all_ignoreBr]
+  cases hit o.brStart e.brStart <;> cases hit o.brStop e.brStop <;>
+    cases (flagsAfter o Flags.init ms).ignoreBr <;> simp
+
+/-- only pieces of the source are named -/
+theorem removes_range_src (o : Opts) (rx : Rx) (src : Option (List Nat)) (n : Nat)
+    (hlen : ∀ s, src = some s → (splitSrc s).length ≤ U32MAX)
+    (h : removesLine (createSrc o rx src) n ∨ removesBranch (createSrc o rx src) n) :
+    ∃ s, src = some s ∧ 1 ≤ n ∧ n ≤ (splitSrc s).length := by
+  cases src with
+  | none =>
+    simp [createSrc, create_unreadable, removesLine, removesBranch] at h
+  | some s =>
+    have := removes_range o (sourceBits rx s) (by rw [sourceBits_length]; exact hlen s rfl) true n h
+    rw [sourceBits_length] at this
+    exact ⟨s, rfl, this.1, this.2⟩
+
+/-- the empty text: one empty piece -/
+theorem createSrc_nil (o : Opts) (rx : Rx) : createSrc o rx (some []) = create o true [rx.bits []] := rfl
+
+theorem inLineRegion_nil_zero (o : Opts) : ¬ inLineRegion o [] 0 := by
+  unfold inLineRegion; rw [inRegion_zero]; exact not_Marks_zero _ _ _
+
+theorem inBrRegion_nil_zero (o : Opts) : ¬ inBrRegion o [] 0 := by
+  unfold inBrRegion; rw [inRegion_zero]; exact not_Marks_zero _ _ _
+
 end Grcov.FileFilter
